@@ -2295,17 +2295,21 @@ def c20(ctx):
     facts["compat_abi"] = mm.group(1) if mm else "yes"
     # the other compatibility flavours (--enable-obsolete-api=glibc|alt|owl|suse): what the tree's own generators emit
     # for each -- the linker version script and the symver macros -- judged against Abi!MapFor
-    def gen_script(tool, abi, pre=()):
+    def gen_script(tool, abi, smin, floor, pre=()):
         r_ = subprocess.run(["perl", os.path.join(vlib.REPO, "build-aux/scripts", tool)] + list(pre) +
-                            ["SYMVER_MIN=GLIBC_2.0", "SYMVER_FLOOR=GLIBC_2.2.5", "COMPAT_ABI=" + abi, os.path.join(vlib.REPO, "lib/libcrypt.map.in")],
+                            ["SYMVER_MIN=" + smin, "SYMVER_FLOOR=" + floor, "COMPAT_ABI=" + abi, os.path.join(vlib.REPO, "lib/libcrypt.map.in")],
                             capture_output=True, text=True, env=dict(os.environ, LC_ALL="C"))
         if r_.returncode != 0:
-            ctx.violation("C20", "%s fails for COMPAT_ABI=%s" % (tool, abi), {"stderr": r_.stderr[-800:]})
+            ctx.violation("C20", "%s fails for COMPAT_ABI=%s SYMVER_FLOOR=%s" % (tool, abi, floor), {"stderr": r_.stderr[-800:]})
         return r_.stdout
     facts["maps"], facts["symvers"] = {}, {}
-    for abi in ("yes", "glibc", "alt", "owl", "suse"):
+    # every platform: the port's first glibc (any GLIBC node of the %chain) as floor; and --disable-obsolete-api
+    glibc_chain = ["GLIBC_2.0", "GLIBC_2.2", "GLIBC_2.2.1", "GLIBC_2.2.2", "GLIBC_2.2.5", "GLIBC_2.2.6", "GLIBC_2.3", "GLIBC_2.4", "GLIBC_2.12", "GLIBC_2.16",
+                   "GLIBC_2.17", "GLIBC_2.18", "GLIBC_2.21", "GLIBC_2.27", "GLIBC_2.29", "GLIBC_2.32", "GLIBC_2.33", "GLIBC_2.35", "GLIBC_2.36", "GLIBC_2.38"]
+    configs = [(a, "GLIBC_2.0", f) for a in ("yes", "glibc", "alt", "owl", "suse") for f in glibc_chain] + [("no", "XCRYPT_2.0", "XCRYPT_2.0")]
+    for (abi, smin, floor) in configs:
         pairs, node = [], None
-        for ln in gen_script("gen-libcrypt-map", abi).splitlines():
+        for ln in gen_script("gen-libcrypt-map", abi, smin, floor).splitlines():
             mm_ = re.match(r"^([A-Z_]+[0-9.]+) \{", ln)
             if mm_:
                 node = mm_.group(1)
@@ -2313,9 +2317,9 @@ def c20(ctx):
                 node = None
             elif node and re.match(r"^    [a-z_]+;$", ln):
                 pairs.append([ln.strip().rstrip(";"), node])
-        facts["maps"][abi] = pairs
-        facts["symvers"][abi] = [[m_.group(1), m_.group(2)] for m_ in
-                                 re.finditer(r'symver_(?:default|compat0?) \((?:\d+, )?"([a-z_]+)", .*?([A-Z_]+[0-9.]+)\)', gen_script("gen-crypt-symbol-vers-h", abi, ("yes",)))]
+        facts["maps"]["%s/%s" % (abi, floor)] = pairs
+        facts["symvers"]["%s/%s" % (abi, floor)] = [[m_.group(1), m_.group(2)] for m_ in
+                                 re.finditer(r'symver_(?:default|compat0?) \((?:\d+, )?"([a-z_]+)", .*?([A-Z_]+[0-9.]+)\)', gen_script("gen-crypt-symbol-vers-h", abi, smin, floor, ("yes",)))]
     ff, vf = os.path.join(ctx.dir, "abifacts.json"), os.path.join(ctx.dir, "abiverdict.json")
     json.dump(facts, open(ff, "w"))
     res = ctx.tlc("Abi.tla", "Abi.cfg", env={"XCV_FACTS": ff, "XCV_VERDICT": vf}, workers=1, timeout=300)
@@ -2327,8 +2331,8 @@ def c20(ctx):
         if v[k]:
             ctx.violation("C20", what, {k: v[k], "facts": {kk: facts.get(kk) for kk in ("layout", "constants")}})
     for x in v.get("flavour_missing", []):
-        ctx.violation("C20", "a library configured --enable-obsolete-api=%s would not export %s@%s (%s)" % (x[0], x[2], x[3], x[1]), {"flavour": x[0], "where": x[1], "sym": x[2], "ver": x[3]})
-    if min(len(p_) for p_ in facts["maps"].values()) < 15 or min(len(p_) for p_ in facts["symvers"].values()) < 15:
+        ctx.violation("C20", "a library configured --enable-obsolete-api=<flavour>/<platform floor> = %s would not export %s@%s (%s)" % (x[0], x[2], x[3], x[1]), {"flavour/floor": x[0], "where": x[1], "sym": x[2], "ver": x[3]})
+    if min(len(p_) for p_ in facts["maps"].values()) < 9 or min(len(p_) for p_ in facts["symvers"].values()) < 9:
         raise Broken("the generated version scripts / symver macros were not parsed: %s" % {k: len(p_) for k, p_ in facts["maps"].items()})
     # C20 asks that the compatibility symbols BEHAVE as their modern counterparts (judged below through every released
     # binding); that they are the very same address is how the released library does it, not part of the property
@@ -2371,6 +2375,7 @@ def c20(ctx):
     cov = mc_coverage(ctx, 2, 2, [v1], allx, {"exported_pairs": v["exported"], "released_pairs": v["released"],
                                             "version_nodes_bound": ["default", "GLIBC_2.2.5", "XCRYPT_2.0"],
                                             "compat_flavours_generated_and_judged": v.get("flavour_pairs", {}),
+                                            "flavour_x_platform_configurations_judged": v.get("configs"), "pairs_required_over_all_configurations": v.get("config_pairs"),
                                             "des_api_calls": sum(x["cnt"]["api"] for x in vp), "gensalt_calls": sum(x["cnt"]["calls"] for x in vg),
                                             "compat_symbols_not_sharing_their_counterparts_address (divergence, behaviour is judged)": alias_div,
                                             "predicates": ["Released subset-of Exported", "Layout", "Constants",
